@@ -9,6 +9,18 @@ _PENDING = "no registered check yet at this commit (model and correspondence und
 NOT_APPLICABLE = {f"C{i:02d}": _PENDING for i in range(1, 21)}
 
 META = {
+    "C17": {
+        "text": ("Lean theorem, decided by the kernel on tables regenerated from /repo on every run: for every query type of the family "
+                 "and every subset of its optional JSON keys that a valid query can emit (struct tags), the ordered decision list of "
+                 "ParseQuery (translated to a Lean function by the extractor) selects that type or its documented equivalent. The "
+                 "semantic half - equal results after the JSON round trip of queries and search requests, query-string parsing vs "
+                 "directly constructed queries, no panic on arbitrary bytes, independence from lexer-pool history - is a differential "
+                 "correspondence against the real code on both engines."),
+        "design_ref": "DESIGN.md section 4, C17",
+        "note": ("trusted: Lean kernel, the extractor, encoding/json, Go harness. The query-string lexer/grammar is not modelled in Lean "
+                 "(DESIGN.md planned a Lean lexer+parser; not built): that half of the property is decided by correspondence only."),
+        "technique": "Lean 4 decide over generated dispatch/tag tables (translator) + differential correspondence",
+    },
     "C16": {
         "text": ("Lean theorem for every codec table passing the decidable check TableOK and every record: decoding the encoding "
                  "returns every field, and re-encoding is a fixpoint. The tables of FieldMapping, DocumentMapping and "
